@@ -38,12 +38,12 @@ impl<'a> Entry<'a> {
         requires call_requires(f, ()),
             // #new_entries_are_blank_and_valid [C06,C03]: what the closure builds is a valid blank entry
             forall|p: PaymentState| call_ensures(f, (), p) ==> ps_inv(p, blank_g()),
-        ensures ps_inv(*r, *final(g)), final(g).via_listener == old(g).via_listener, final(g).incoming == old(g).incoming,
+        ensures ps_inv(*r, *final(g)), final(g).via_listener == old(g).via_listener, final(g).listener_value == old(g).listener_value, final(g).incoming == old(g).incoming,
             // input validity assumption (listed): the held total plus the incoming HTLC fits in 64 bits
             sum_held(final(g).held) + final(g).incoming as int <= u64::MAX as int,
     { unimplemented!() }
 }
-spec fn blank_g() -> G { G { ready_q: Seq::empty(), fail_q: Seq::empty(), held: Seq::empty(), ever_ready_sent: false, via_listener: false, incoming: 0 } }
+spec fn blank_g() -> G { G { ready_q: Seq::empty(), fail_q: Seq::empty(), held: Seq::empty(), ever_ready_sent: false, via_listener: false, listener_value: None, incoming: 0 } }
 // the hook call's own oneshot: under E2 `receiver.await` is the receiver itself; the value it
 // yields is what was sent on the paired sender. Liveness assumption (listed, C06's eventually-clause
 // is not applicable): a listener that was handed to add_htlc is eventually answered.
@@ -51,6 +51,6 @@ impl oneshot::Receiver<messages::HtlcAcceptedResponse> {
     #[verifier::external_body]
     pub fn context(self, c: &'static str, Tracked(g): Tracked<&mut G>) -> (r: crate::anyhow::Result<messages::HtlcAcceptedResponse>)
         ensures r is Ok, Some(r->Ok_0) == self.will_receive(),
-            *final(g) == (G { via_listener: true, ..*old(g) }),
+            *final(g) == (G { via_listener: true, listener_value: Some(r->Ok_0), ..*old(g) }),
     { unimplemented!() }
 }
